@@ -210,10 +210,18 @@ def rule_literal_fidelity(ck, facts, R):
                 if op in ("lt", "le", "gt", "ge"):
                     verdict = ("tolerance", op, c, f.where(t))
                 elif op in ("eq", "ne"):
-                    verdict = ("exact", op, c, f.where(t))
+                    # the comparison must be made at full width against the value that was passed in: a test of
+                    # `value as f32` (or of any other narrowed copy) accepts every literal whose *rounded* value is
+                    # representable
+                    ops = r[1][5][2:4]
+                    against_arg = any(o[0] in ("cp", "mv") and di.resolve(o) == ("arg", 1) for o in ops)
+                    wide = r[1][5][4] == "f64" if len(r[1][5]) > 4 else all(o[0] != "c" and f.local_ty(o[1][0]) == "f64" for o in ops)
+                    verdict = ("exact" if (against_arg and wide) else "narrowed", op, c, f.where(t))
         key = "literal-fidelity|%s" % f.short
         if verdict and verdict[0] == "exact":
             ck.ok(R, key, {"fn": f.short, "test": verdict[1]})
+        elif verdict and verdict[0] == "narrowed":
+            ck.bad(R, key, "%s tests the round trip on a narrowed copy of the literal (the equality does not compare the f64 argument itself at f64 width): a literal whose single-precision rounding happens to be representable is inlined with the rounded value, so it changes value on the VM only" % f.short, verdict[3])
         elif verdict:
             ck.bad(R, key, "%s accepts a lossy conversion: the round-trip error is tested with `%s %r` instead of exact equality, so an inline literal can change value on the VM only" % (f.short, verdict[1], verdict[2]), verdict[3])
         else:
@@ -322,6 +330,72 @@ def rule_bump_allocators(ck, facts, R):
             )
 
 
+def _closures_in(e, out):
+    if isinstance(e, tuple):
+        if e and e[0] == "agg" and isinstance(e[1], str) and e[1].startswith("closure:"):
+            out.append(e[1][len("closure:"):])
+        for x in e:
+            _closures_in(x, out)
+
+
+def rule_region_alloc(ck, facts, R):
+    """the register allocator of the bytecode generator places a new value after every live region"""
+    from ..symex import PathLimit, SymEx, show
+
+    lang = facts.crate(roles.LANG)
+    n = 0
+    for f in lang.fns:
+        if "::compiler::bytecodegen" not in f.path or f.kind == "promoted":
+            continue
+        if not any(s[KIND] == "a" and s[5][0] == "agg" and s[5][1][0] == "adt" and s[5][1][1].endswith("::MemoryRegion") for _, s in f.all_stmts()):
+            continue
+        sx = SymEx(f, max_paths=32, facts=facts)
+        try:
+            paths = sx.run(0)
+        except PathLimit:
+            paths = sx.paths
+        regions = []
+        for p in paths:
+            for e in p.events:
+                if e[0] == "call" and e[1].split("::")[-1] == "insert":
+                    for a in e[2]:
+                        if a[0] == "agg" and str(a[1]).endswith("::MemoryRegion") and len(a[2]) == 2:
+                            regions.append(a)
+        seen = set()
+        for a in regions:
+            if repr(a) in seen:
+                continue
+            seen.add(repr(a))
+            cls = []
+            _closures_in(a[2][0], cls)
+            if not cls or not any(m in repr(a[2][0]) for m in ("::max_by_key", "::max'", "::max_by", "::fold", "::last")):
+                continue  # an address given by the caller / an alias into an existing region (GetElement)
+            n += 1
+            key = "region-alloc|%s" % f.short.split("::")[-1]
+            bad = None
+            for cp in cls:
+                g = facts.fn(cp)
+                if g is None:
+                    bad = "closure %s not found" % cp
+                    break
+                sg = SymEx(g, max_paths=16, facts=facts)
+                try:
+                    gp = sg.run(0)
+                except PathLimit:
+                    gp = sg.paths
+                rets = [q.env.get(0) for q in gp if q.end == "return"]
+                for r0 in rets:
+                    txt = repr(r0)
+                    # address + size of the same region (checked add: `.0` of an add-with-overflow is the sum)
+                    if not ("MemoryRegion::0" in txt and "MemoryRegion::1" in txt and ("'add" in txt or "::add'" in txt)):
+                        bad = "%s yields %s" % (g.short.split("::")[-1], show(r0)[:80])
+            if bad:
+                ck.bad(R, key, "%s: the address of a newly allocated register region is not the largest `address + size` of the live regions (%s): a one-word value can be placed inside a live multi-word value (a tuple, a record), whose words it then overwrites" % (f.short, bad), f.where())
+            else:
+                ck.ok(R, key, {"fn": f.short, "closures": len(cls)})
+    ck.floor(R, "register_region_allocations", n, 2)
+
+
 def run(ck, facts, cg, anchors, tier, pid, literal=True):
     R = "%s.bounds" % pid
     ck.rule(
@@ -337,3 +411,4 @@ def run(ck, facts, cg, anchors, tier, pid, literal=True):
         rule_literal_fidelity(ck, facts, R)
     rule_checked_unwrap(ck, facts, R, "::compiler::bytecodegen")
     rule_bump_allocators(ck, facts, R)
+    rule_region_alloc(ck, facts, R)
